@@ -233,10 +233,20 @@ def deps_of(exprs, defs):
 
 
 # ---- the obligations -----------------------------------------------------------------------------
+SPARSE_BITS = (0, 1, 2, 16, 17, 18, 32, 33, 34)
+
+
 class Ctx:
+    """width = int W: all inputs with E < 2^W (unwind W+2);
+       width = "sparse": all inputs whose set bits lie in SPARSE_BITS -- small perturbations of the
+       skip-list boundaries 2^16 and 2^32 (unwind 37)."""
     def __init__(self, width):
         self.W = width
-        self.unwind = width + 2
+        self.sparse = width == "sparse"
+        if self.sparse:
+            self.unwind = max(SPARSE_BITS) + 3
+        else:
+            self.unwind = width + 2
         self.funcs, self.mir_s, self.mir_lines = dump_mir("akd_core")
         self.queries = []
         self.solver_s = 0.0
@@ -250,7 +260,18 @@ class Ctx:
         return ex, (s, n, e), r, past, fut
 
     def wpre(self, e):
+        """domain constraint on one input (callers apply it to the epoch; `dom` to every input)"""
+        if self.sparse:
+            return self.dom(e)
         return z3.ULT(e, bvv(1 << self.W)) if self.W < 64 else z3.BoolVal(True)
+
+    def dom(self, *xs):
+        if not self.sparse:
+            return z3.BoolVal(True)
+        mask = 0
+        for b in SPARSE_BITS:
+            mask |= 1 << b
+        return z3.And(*[(x & bvv(~mask & ((1 << 64) - 1))) == 0 for x in xs])
 
 
 def _record(ctx, ob_results, name, expect, verdict, dt, xc=None, model=None):
@@ -357,7 +378,7 @@ def _finish(ctx, t0, ob, fails, unknowns, extra=None, witness=None, known=None):
         res["replay"] = _replay_marker(ob, fails)
     else:
         res["verdict"] = "pass"
-        res["reason"] = "%d queries unsat as required (width %d, unwind %d)" % (len(ctx.queries), ctx.W, ctx.unwind)
+        res["reason"] = "%d queries unsat as required (domain %s, unwind %d)" % (len(ctx.queries), ctx.W, ctx.unwind)
     return res
 
 
@@ -365,7 +386,7 @@ def _ask(ctx, ex_defs, pre, name, q, vars_, cap, fails, unknowns, xcheck=False):
     v, dt, model = decide(ex_defs, pre, q, cap, vars_)
     xc = None
     if xcheck and v in ("sat", "unsat"):
-        xc = cross_check(ex_defs, pre, q, "%s_w%d" % (re.sub(r"\W+", "_", name), ctx.W))
+        xc = cross_check(ex_defs, pre, q, "%s_w%s" % (re.sub(r"\W+", "_", name), ctx.W))
         for solver, r in xc.items():
             if r["verdict"] in ("sat", "unsat") and r["verdict"] != v:
                 unknowns.append("%s (solver disagreement: %s says %s)" % (name, solver, r["verdict"]))
@@ -381,7 +402,7 @@ def ob_m1(ob, tier, seed):
     t0 = time.time()
     ctx = Ctx(ob["width"])
     ex, (s, n, e), r, past, fut = ctx.run_gmv("a")
-    pre = z3.And(z3.UGE(s, 1), z3.ULE(s, n), z3.ULE(n, e), ctx.wpre(e))
+    pre = z3.And(z3.UGE(s, 1), z3.ULE(s, n), z3.ULE(n, e), ctx.wpre(e), ctx.dom(s, n))
     cap = ob["query_cap_s"]
     fails, unknowns = [], []
     V = (s, n, e)
@@ -398,7 +419,7 @@ def ob_m1(ob, tier, seed):
     # independence (semantic, two runs): past is a function of s alone, future of (n, E) alone
     exb, (sb, nb, eb), rb, pastb, futb = ctx.run_gmv("b")
     defs2 = ex.defs + exb.defs
-    pre2 = z3.And(pre, z3.UGE(sb, 1), z3.ULE(sb, nb), z3.ULE(nb, eb), ctx.wpre(eb))
+    pre2 = z3.And(pre, z3.UGE(sb, 1), z3.ULE(sb, nb), z3.ULE(nb, eb), ctx.wpre(eb), ctx.dom(sb, nb))
     def vec_differs(a, b):
         return z3.Or(a.len != b.len, *[z3.And(z3.UGT(a.len, bvv(k)), a.arr.elems[k] != b.arr.elems[k]) for k in range(len(a.arr.elems))])
     _ask(ctx, defs2, z3.And(pre2, s == sb), "past markers differ for equal s (different n, E)", vec_differs(past, pastb), (s, n, e, nb, eb), cap, fails, unknowns)
@@ -413,16 +434,27 @@ def ob_m6(ob, tier, seed):
     ctx = Ctx(ob["width"])
     ex, (s, n, e), r, past, fut = ctx.run_gmv("a")
     x = z3.BitVec("x", 64)
-    pre = z3.And(z3.UGE(s, 1), z3.ULE(s, n), z3.ULE(n, e), ctx.wpre(e))
+    pre = z3.And(z3.UGE(s, 1), z3.ULE(s, n), z3.ULE(n, e), ctx.wpre(e), ctx.dom(s, n))
     cap = ob["query_cap_s"]
     fails, unknowns = [], []
     V = (s, n, e, x)
-    _ask(ctx, ex.defs, pre, "x in real past(s) but not in spec_past(x, s)", z3.And(vec_contains(past, x), z3.Not(spec_in_past(x, s))), V, cap, fails, unknowns, xcheck=True)
-    _ask(ctx, ex.defs, pre, "x in spec_past(x, s) but not in real past(s)", z3.And(spec_in_past(x, s), z3.Not(vec_contains(past, x))), V, cap, fails, unknowns)
-    _ask(ctx, ex.defs, pre, "x in real future(n,E) but not in spec_future", z3.And(vec_contains(fut, x), z3.Not(spec_in_future(x, n, e))), V, cap, fails, unknowns, xcheck=True)
-    _ask(ctx, ex.defs, pre, "x in spec_future but not in real future(n,E)", z3.And(spec_in_future(x, n, e), z3.Not(vec_contains(fut, x))), V, cap, fails, unknowns)
-    v, dt, model = decide(ex.defs, pre, z3.And(vec_contains(fut, x), vec_contains(past, x - 1)), cap, V)
-    _record(ctx, None, "witness: some x is a future marker while x-1 is a past marker", "sat", v, dt, None, model)
+    part = ob.get("part", "all")
+    if part in ("all", "past"):
+        _ask(ctx, ex.defs, pre, "x in real past(s) but not in spec_past(x, s)", z3.And(vec_contains(past, x), z3.Not(spec_in_past(x, s))), V, cap, fails, unknowns, xcheck=True)
+        _ask(ctx, ex.defs, pre, "x in spec_past(x, s) but not in real past(s)", z3.And(spec_in_past(x, s), z3.Not(vec_contains(past, x))), V, cap, fails, unknowns)
+    if part in ("all", "fut_fwd"):
+        _ask(ctx, ex.defs, pre, "x in real future(n,E) but not in spec_future", z3.And(vec_contains(fut, x), z3.Not(spec_in_future(x, n, e))), V, cap, fails, unknowns, xcheck=True)
+    if part in ("all", "fut_bwd"):
+        _ask(ctx, ex.defs, pre, "x in spec_future but not in real future(n,E)", z3.And(spec_in_future(x, n, e), z3.Not(vec_contains(fut, x))), V, cap, fails, unknowns, xcheck=(part != "all"))
+    if part == "fut_bwd_x":
+        # cheaper variant: the candidate marker x is itself restricted to the sparse-bit domain
+        _ask(ctx, ex.defs, z3.And(pre, ctx.dom(x)), "x (sparse) in spec_future but not in real future(n,E)", z3.And(spec_in_future(x, n, e), z3.Not(vec_contains(fut, x))), V, cap, fails, unknowns, xcheck=True)
+    if part == "all":
+        v, dt, model = decide(ex.defs, pre, z3.And(vec_contains(fut, x), vec_contains(past, x - 1)), cap, V)
+        _record(ctx, None, "witness: some x is a future marker while x-1 is a past marker", "sat", v, dt, None, model)
+    else:
+        v, dt, model = decide(ex.defs, pre, z3.And(z3.UGE(n, bvv(1 << 32)), z3.UGT(fut.len, 1)), cap, V)
+        _record(ctx, None, "witness: some n >= 2^32 in the domain has more than one future marker", "sat", v, dt, None, model)
     return _finish(ctx, t0, ob, fails, unknowns, extra={"defs": len(ex.defs)}, witness=(v == "sat") and "sat twin: " + json.dumps(model))
 
 
@@ -434,7 +466,7 @@ def ob_m2(ob, tier, seed):
     exb, (sb, nb, eb), rb, pastb, futb = ctx.run_gmv("b")      # history [sb..nb] at the same epoch
     defs = exa.defs + exb.defs
     pre = z3.And(z3.UGE(sa, 1), z3.ULE(sa, na), z3.ULE(na, ea), z3.UGE(sb, 1), z3.ULE(sb, nb), z3.ULE(nb, eb), ea == eb,
-                 z3.ULT(na, nb), ctx.wpre(ea))
+                 z3.ULT(na, nb), ctx.wpre(ea), ctx.dom(sa, na, sb, nb))
     cap = ob["query_cap_s"]
     fails, unknowns = [], []
     V = (sa, na, ea, sb, nb)
@@ -457,7 +489,7 @@ def ob_m4(ob, tier, seed):
     ctx = Ctx(ob["width"])
     ex, (s, n, e), r, past, fut = ctx.run_gmv("a")
     m = z3.BitVec("m", 64)
-    pre = z3.And(s == 1, z3.UGE(n, 1), z3.ULE(n, e), z3.ULT(n, m), z3.ULE(m, e), ctx.wpre(e))
+    pre = z3.And(s == 1, z3.UGE(n, 1), z3.ULE(n, e), z3.ULT(n, m), z3.ULE(m, e), ctx.wpre(e), ctx.dom(n, m))
     cap = ob["query_cap_s"]
     fails, unknowns = [], []
     V = (n, m, e)
